@@ -6,6 +6,7 @@ TARGETS = ["Base/Corr.vo", "Base/Fl.vo", "Base/Num.vo", "C01/Model.vo", "C01/Mod
            "C10/Gen.vo", "C10/Model.vo",
            "C08/Spec.vo", "C08/Model.vo", "C08/Corr.vo", "C08/ProofsList.vo", "C08/ProofsComb.vo", "C08/ProofsScalar.vo",
            "C08/ProofsSet.vo", "C08/ProofsComposite.vo", "C08/ProofsRefuted.vo", "C08/ProofsMat.vo", "C08/ProofsVec.vo",
+           "C08/ProofsReduce.vo",
            "C08/SpecTest.vo", "C08/Props.vo"]
 PROPS = ["C08/Props.v"]
 PARTIAL = ("Scalar theorems are about the shared register-file model coq/C01/Model.v, for an ARBITRARY carrier (floats "
